@@ -17,4 +17,5 @@ CONSTANTS
   Horizon = 4000
   Fx <- FxAll
   Assume = TRUE
+  CancelAts = {}
 INVARIANT CNoViolation
